@@ -12,12 +12,17 @@ from common import (BUILD, EXTRACT, TARGET, VERIF, Infra, SplitMix, build_extrac
                     repo_hash, verif_hash)
 
 NCOMP = 5
+sys_path_tools = os.path.join(VERIF, "tools")
+import sys as _sys
+if sys_path_tools not in _sys.path:
+    _sys.path.insert(0, sys_path_tools)
+from gen_harness import PALETTE16  # noqa: E402
 CACHE = os.path.join(BUILD, "cache")
 
 
 # ------------------------------------------------------------------ generator
 
-def gen_case(rng, max_ops, mirror=False):
+def gen_case(rng, max_ops, mirror=False, ncomp=5):
     """One history. Entities are addressed by ordinal (#k = k-th identifier
     issued in this case) so the generator needs no model of the allocator."""
     lines = []
@@ -31,18 +36,28 @@ def gen_case(rng, max_ops, mirror=False):
     live = {0: set()}       # believed-live ordinals per world
     freec = {0: 0}          # believed number of free slots per world
     issued = [0]
+    NCOMP = ncomp
     palette = []
-    for _ in range(rng.choice([2, 3, 4, 5])):
-        m = rng.below(32)
-        if rng.chance(1, 3):
-            m &= rng.below(32)
-        palette.append(m)
-    if rng.chance(1, 6):
-        palette.append(0)
-    lines.append("new 0 %d %d" % (fresh(), fresh()))
+    if ncomp == 5:
+        for _ in range(rng.choice([2, 3, 4, 5])):
+            m = rng.below(32)
+            if rng.chance(1, 3):
+                m &= rng.below(32)
+            palette.append(m)
+        if rng.chance(1, 6):
+            palette.append(0)
+        anymask = lambda: rng.below(32)  # noqa: E731
+    else:
+        # only the instantiated shapes can be named by insert/extend/reserve; Entry::add/remove reach the others
+        for _ in range(rng.choice([2, 3, 4, 5])):
+            palette.append(rng.choice(PALETTE16))
+        anymask = lambda: rng.choice(PALETTE16)  # noqa: E731
+    lines.append("new 0 %d %d %d %d" % (fresh(), fresh(), fresh(), fresh()))
 
     def comps_of(mask, desc):
         cs = [k for k in range(NCOMP) if mask >> k & 1]
+        if len(cs) > 6:
+            desc = 0       # large shapes are instantiated in ascending textual order only
         return cs[::-1] if desc else cs
 
     def target(ws):
@@ -59,7 +74,7 @@ def gen_case(rng, max_ops, mirror=False):
     for _ in range(nops):
         wss = sorted(live.keys())
         if not wss:
-            lines.append("new 0 %d %d" % (fresh(), fresh()))
+            lines.append("new 0 %d %d %d %d" % (fresh(), fresh(), fresh(), fresh()))
             live[0] = set()
             freec[0] = 0
             continue
@@ -68,17 +83,19 @@ def gen_case(rng, max_ops, mirror=False):
                              ("clr", 2), ("shr", 3), ("rsv", 3), ("rset", 2), ("cln", 3), ("clf", 3),
                              ("srd", 4), ("eq", 3), ("drop", 1), ("new", 1)])
         if kind == "ins":
-            mask = rng.choice(palette) if rng.chance(5, 6) else rng.below(32)
+            mask = rng.choice(palette) if rng.chance(5, 6) else anymask()
             desc = rng.below(2)
             cs = comps_of(mask, desc)
+            desc = desc if len(cs) <= 6 else 0
             lines.append("ins %d %d %d %s" % (ws, desc, len(cs), " ".join("%d %d" % (c, fresh()) for c in cs)))
             live[ws].add(issued[0])
             issued[0] += 1
             freec[ws] = max(0, freec[ws] - 1)
         elif kind == "ext":
-            mask = rng.choice(palette) if rng.chance(5, 6) else rng.below(32)
+            mask = rng.choice(palette) if rng.chance(5, 6) else anymask()
             desc = rng.below(2)
             cs = comps_of(mask, desc)
+            desc = desc if len(cs) <= 6 else 0
             f = freec[ws]
             rows = rng.choice([0, 1, 2, 3, max(0, f - 1), f, f + 1, f + 2, rng.below(6)])
             vals = []
@@ -110,13 +127,14 @@ def gen_case(rng, max_ops, mirror=False):
         elif kind == "shr":
             lines.append("shr %d" % ws)
         elif kind == "rsv":
-            mask = rng.choice(palette) if rng.chance(1, 2) else rng.below(32)
+            mask = rng.choice(palette) if rng.chance(1, 2) else anymask()
             desc = rng.below(2)
             cs = comps_of(mask, desc)
+            desc = desc if len(cs) <= 6 else 0
             lines.append(("rsv %d %d %d %s %d" % (ws, desc, len(cs), " ".join(map(str, cs)),
                                                   rng.below(20))).replace("  ", " "))
         elif kind == "rset":
-            lines.append("rset %d %d %d" % (ws, rng.below(2), fresh()))
+            lines.append("rset %d %d %d %d" % (ws, rng.below(4), fresh(), rng.below(3)))
         elif kind == "cln":
             dst = rng.below(nworlds)
             if dst == ws:
@@ -156,15 +174,24 @@ def gen_case(rng, max_ops, mirror=False):
             free_ws = [w for w in range(nworlds) if w not in live]
             if free_ws:
                 w = free_ws[0]
-                lines.append("new %d %d %d" % (w, fresh(), fresh()))
+                lines.append("new %d %d %d %d %d" % (w, fresh(), fresh(), fresh(), fresh()))
                 live[w] = set()
                 freec[w] = 0
     return lines
 
 
 def gen_cases(seed, count, max_ops):
+    """About two thirds of the histories run on the 5-component registry, the rest on the 16-component one
+    (marked by a first line `%reg 16`)."""
     rng = SplitMix(seed)
-    return [gen_case(rng.fork(), max_ops) for _ in range(count)]
+    n16 = count // 3
+    out = [gen_case(rng.fork(), max_ops) for _ in range(count - n16)]
+    out += [["%reg 16"] + gen_case(rng.fork(), max_ops, ncomp=16) for _ in range(n16)]
+    return out
+
+
+def case_reg(c):
+    return 16 if c and c[0].startswith("%reg 16") else 5
 
 
 def corpus_cases():
@@ -185,25 +212,33 @@ def run_cases(cases, workdir, shards=16, tag="wh"):
     """Runs harness then model on the cases (sharded). Returns list of
     (impl_trace_path, model_trace_path, first_case_index, ncases)."""
     os.makedirs(workdir, exist_ok=True)
-    wh = os.path.join(TARGET, "debug", "wh")
     model = os.path.join(EXTRACT, "wh_model")
     shards = max(1, min(shards, len(cases)))
     per = (len(cases) + shards - 1) // shards
+    # contiguous chunks that never mix registries (each registry has its own harness binary)
+    chunks = []
+    i = 0
+    while i < len(cases):
+        reg = case_reg(cases[i])
+        j = i
+        while j < len(cases) and j - i < per and case_reg(cases[j]) == reg:
+            j += 1
+        chunks.append((i, j, reg))
+        i = j
     procs = []
-    for s in range(shards):
-        chunk = cases[s * per:(s + 1) * per]
-        if not chunk:
-            continue
+    for s, (a, b, reg) in enumerate(chunks):
+        chunk = cases[a:b]
+        wh = os.path.join(TARGET, "debug", "wh" if reg == 5 else "wh16")
         ops = os.path.join(workdir, "%s.%d.ops" % (tag, s))
         with open(ops, "w") as f:
             for i, c in enumerate(chunk):
-                f.write("case %d\n" % (s * per + i))
+                f.write("case %d\n" % (a + i))
                 f.write("\n".join(c) + "\n")
                 f.write("end\n")
         impl = os.path.join(workdir, "%s.%d.impl" % (tag, s))
         mod = os.path.join(workdir, "%s.%d.model" % (tag, s))
         cmd = "timeout 1200 %s %s > %s && timeout 1200 %s %s > %s" % (wh, ops, impl, model, impl, mod)
-        procs.append((subprocess.Popen(cmd, shell=True, stderr=subprocess.PIPE, text=True), impl, mod, s * per, len(chunk), ops))
+        procs.append((subprocess.Popen(cmd, shell=True, stderr=subprocess.PIPE, text=True), impl, mod, a, len(chunk), ops))
     out = []
     for p, impl, mod, first, n, ops in procs:
         _, err = p.communicate()
@@ -351,10 +386,15 @@ def first_divergence(impl_case, model_case, views, with_ret=True, with_ev=False,
 # ------------------------------------------------------------------ oracles on the implementation trace
 
 def norm_val(c, v):
-    if c == 1:
+    """payload normalisation of the harness types (harness/src/comps.rs)"""
+    if c in (1, 9):
         return 0
-    if c == 4:
+    if c in (4, 5, 11, 13, 15, 102):
         return v & 0xFFFFFFFF
+    if c == 7:
+        return v & 0xFFFF
+    if c == 8:
+        return v & 0xFF
     return v
 
 
@@ -363,7 +403,7 @@ def world_map(w):
     m = {}
     dup = []
     for bits, rows in w["archs"]:
-        cs = [k for k in range(NCOMP) if bits[k] == "1"]
+        cs = [k for k in range(len(bits)) if bits[k] == "1"]
         for ident, vals in rows:
             if ident in m:
                 dup.append(ident)
@@ -452,7 +492,7 @@ class RefWorlds:
         if k == "new":
             ws = int(t[1])
             self.maps[ws] = {}
-            self.res[ws] = [int(t[2]), int(t[3])]
+            self.res[ws] = [int(t[2]), int(t[3]), norm_val(102, int(t[4])), int(t[5])]
             self.ever[ws] = set()
         elif k == "drop":
             ws = int(t[1])
@@ -526,7 +566,7 @@ class RefWorlds:
         elif k == "rset":
             ws = int(t[1])
             if ws in self.res:
-                self.res[ws][int(t[2])] = int(t[3])
+                self.res[ws][int(t[2])] = norm_val(100 + int(t[2]), int(t[3]))
         elif k in ("cln", "clf", "srd"):
             if k == "cln":
                 src, dst = int(t[1]), int(t[2])
@@ -791,7 +831,7 @@ def engine(seed, tier):
     import pickle
     count, max_ops = (320, 60) if tier == "quick" else (6000, 220)
     build_extract()
-    err = build_harness(["wh"])
+    err = build_harness(["wh", "wh16"])
     if err:
         raise Infra("harness does not build against /repo:\n" + err[-3000:])
     key = "%s-%s-%s-%s" % (repo_hash()[:16], verif_hash()[:16], seed, tier)
